@@ -138,6 +138,8 @@ package fscache
 //@   assigns nothing
 //@   ensures result1 == nil ==> result0 != nil && fresh(result0) && result0.gcm != nil && result0.r == r     # name: usable-key-gives-an-aead
 //@   ensures result1 != nil ==> result0 == nil                                             # name: bad-key-gives-no-encryptor
+//@   ensures result1 == nil ==> gcmKeyOf(result0.gcm) == b64Decoded(base64.URLEncoding, keyB64)       # name: the-cipher-is-keyed-with-the-whole-configured-key
+//@   ensures result1 == nil ==> len(b64Decoded(base64.URLEncoding, keyB64)) == 16 || len(b64Decoded(base64.URLEncoding, keyB64)) == 24 || len(b64Decoded(base64.URLEncoding, keyB64)) == 32       # name: only-a-key-of-an-aes-length-is-accepted
 // DSN wiring (C17): "encrypt=on" and "encrypt=aesgcm" both ask for encryption; a cache opened
 // from such a DSN encrypts or is not opened. The other option constructors only build a value.
 //@ func WithBaseDir
